@@ -3,10 +3,13 @@
 Implementation functions driven (real code from /repo/src):
   Segmentation.get_pixels_by_source_instance / get_pixels_by_source_frame /
   get_pixels_by_dimension_index_values / get_volume / get_total_pixel_matrix
-  (segment_numbers, combine_segments, relabel, skip_overlap_checks,
-  rescale_fractional, dtype, assert_missing_frames_are_empty /
+  (segment_numbers incl. None and repeated numbers, combine_segments, relabel,
+  skip_overlap_checks, rescale_fractional, dtype, assert_missing_frames_are_empty /
   allow_missing_positions), get_segment_numbers, get_tracking_ids,
-  segment_numbers, number_of_segments.
+  segment_numbers, number_of_segments, get_segment_description,
+  segmented_property_categories, segmented_property_types,
+  Segmentation._check_and_cast_pixel_array (+ _combine_segments) called directly,
+  Segmentation.from_dataset on objects whose frames are not unique per (plane, segment).
 Model: coq/theories/C02_Model.v; theorems: C02_Props.v.
 
 A case = one stored segmentation (synthetic, built through the real
@@ -47,12 +50,11 @@ MODELLED = ('seg/sop.py: _get_pixels_by_seg_frame (dtype choice and capacity che
             'five read entry points (incl. segment_numbers=None and repeated segment numbers in stacked reads), '
             'segment_numbers, number_of_segments, get_segment_numbers, get_tracking_ids, get_segment_description, '
             'segmented_property_categories / _types; _check_and_cast_pixel_array (integer input, LABELMAP) with '
-            '_combine_segments; '
+            '_combine_segments; the (plane, segment) uniqueness guard on objects re-read with from_dataset; '
             'image.py: _prepare_channel_tables and the stack join (as comprehension), _get_pixels_by_frame (as gather)')
 STRATA = ['instance', 'frame', 'dimidx', 'volume', 'tpm', 'subsets', 'malformed', 'fixture', 'search', 'tracking',
-          'ctor', 'describe']
-NOT_EXECUTED = ['palette colour / ICC output of LABELMAP (apply_palette_color_lut)',
-                'objects whose (plane, segment) pairs are not unique (guard modelled, not reachable through the constructor)']
+          'ctor', 'describe', 'dupframe']
+NOT_EXECUTED = ['palette colour / ICC output of LABELMAP (apply_palette_color_lut)']
 RULE = ('objects: BINARY/FRACTIONAL/LABELMAP, 1-4 segments (LABELMAP also sparse numbers from '
         '{1,2,5,7,200,255,256,300,1000,2048,65535}), 1-5 planes (CT series) or 1-9 tiles (tiled slide image), frames of '
         '<= 9 pixels, empty planes, omit_empty_frames on/off, overlapping or disjoint masks, true fractional values, '
@@ -138,8 +140,10 @@ def gen_obj(rng, src, ty=None, segs=None):
     return o
 
 
-def present_planes(o):
+def present_planes(o, raw=False):
     """1-based plane numbers that have at least one stored frame (prediction)."""
+    if o.get('dup') and not raw:
+        return sorted({f[0] for f in predicted_frames(o)})
     ne = [p + 1 for p in range(o['P']) if any(any(v) for v in o['pix'][p])]
     if not o['omit'] or not ne:
         return list(range(1, o['P'] + 1))
@@ -149,7 +153,7 @@ def present_planes(o):
 def predicted_frames(o):
     """[(plane number, segment number or 0, stored pixel values)]"""
     S = len(o['segs'])
-    pres = present_planes(o)
+    pres = present_planes(o, raw=True)
     everything_empty = not any(any(any(v) for v in pl) for pl in o['pix'])
     omit = o['omit'] and not everything_empty
     out = []
@@ -168,6 +172,11 @@ def predicted_frames(o):
                 if omit and not any(v):
                     continue
                 out.append((p, o['segs'][k], list(v)))
+    if o.get('dup'):
+        # the per-frame item of frame `to` was overwritten by a copy of the item of frame `from`:
+        # two stored frames now claim the same (plane, segment); pixel data is untouched
+        (a, s_), (b, t_) = o['dup']['from'], o['dup']['to']
+        out = [((a, s_, px) if (p, sn) == (b, t_) else (p, sn, px)) for (p, sn, px) in out]
     return out
 
 
@@ -416,9 +425,31 @@ def gen_cases(rng, tier):
         cases.append(gen_search(rng, 'tracking'))
     for i in range({'quick': 12, 'thorough': 150, 'search': 50}[tier]):
         cases.append(gen_describe(rng))
+    for i in range({'quick': 10, 'thorough': 100, 'search': 30}[tier]):
+        cases.append(gen_dupframe(rng))
     for i in range({'quick': 16, 'thorough': 200, 'search': 60}[tier]):
         cases.append(gen_ctor(rng, i))
     return cases
+
+
+def gen_dupframe(rng):
+    """an object in which two stored frames claim the same (plane, segment): every entry point must refuse it"""
+    src = rng.choice(['ct', 'sm'])
+    while True:
+        o = gen_obj(rng, src)
+        o['omit'], o['file'] = False, rng.random() < 0.3
+        o.pop('dup', None)
+        fr = predicted_frames(o)
+        if len(fr) >= 2:
+            break
+    a, b = rng.sample(range(len(fr)), 2)
+    o['dup'] = {'from': [fr[a][0], fr[a][1]], 'to': [fr[b][0], fr[b][1]]}
+    entries = ['instance', 'volume'] if src == 'ct' else ['frame', 'tpm', 'volume']
+    reads = []
+    for j in range(5):
+        e = rng.choice(entries)
+        reads.append(gen_read(rng, o, e) if j % 2 == 0 else gen_malformed(rng, o, e))
+    return {'kind': 'dupframe', 'obj': o, 'reads': reads}
 
 
 def gen_describe(rng):
@@ -570,6 +601,23 @@ def build(o):
     if o['ty'] == 'FRACTIONAL':
         kw['max_fractional_value'] = o['maxfrac']
     seg = synth.make_seg(sources, arr, o['ty'], o['segs'], **kw)
+    if o.get('dup'):
+        import copy
+        import io
+        import pydicom
+        b = io.BytesIO()
+        seg.save_as(b)
+        ds = pydicom.dcmread(io.BytesIO(b.getvalue()))
+        uids = [s_.SOPInstanceUID for s_ in sources]
+        where = {}
+        for i, pf in enumerate(ds.PerFrameFunctionalGroupsSequence):
+            src_ = pf.DerivationImageSequence[0].SourceImageSequence[0]
+            key = uids.index(src_.ReferencedSOPInstanceUID) + 1 if o['src'] == 'ct' else int(src_.ReferencedFrameNumber)
+            sn = 0 if o['ty'] == 'LABELMAP' else int(pf.SegmentIdentificationSequence[0].ReferencedSegmentNumber)
+            where[(key, sn)] = i
+        i, j = where[tuple(o['dup']['from'])], where[tuple(o['dup']['to'])]
+        ds.PerFrameFunctionalGroupsSequence[j] = copy.deepcopy(ds.PerFrameFunctionalGroupsSequence[i])
+        seg = hd.seg.Segmentation.from_dataset(ds, copy=False)
     if o.get('file'):
         seg = synth.write_read(seg, hd.seg.segread)
     return seg, sources
@@ -1140,6 +1188,12 @@ def oracle(c, out):
             if 1 <= key <= o['P'] and s in segs:
                 return o['pix'][key - 1][segs.index(s)]
             return [0] * npix
+    if k == 'dupframe':
+        for i, (r, res) in enumerate(zip(c['reads'], out)):
+            if not isinstance(res, Err):
+                return (f'read {i} ({r["entry"]}) of an object in which two frames claim the same (plane, segment) '
+                        f'{c["obj"]["dup"]} was answered instead of refused')
+        return None
     for i, (r, res) in enumerate(zip(c['reads'], out)):
         rr = dict(r, _out=res, _strict_volume=(k != 'fixture' and c['obj']['src'] == 'ct'))
         m = check_read(rr, ty, segs, maxfrac, npix, mask, known, max_ref, present, label=f'read {i} ({r["entry"]}): ')
